@@ -1367,7 +1367,11 @@ pub async fn run(ctx: &Ctx) {
             sh.stat("control_runs_without_attacker", 1);
         }
         let bridged_ok = got(&sh, "probe.bridge_installed") == 0 || got(&sh, "probe.genuine_media_bridged") > 0;
-        if n_atk == 0 && !plan.has_faults() && (!connected || ga == 0 || gb == 0 || !bridged_ok) {
+        let kf_cfg = k.mode == 1 && k.compat == 1 && k.has_video();
+        if kf_cfg {
+            sh.stat("probe.sdes_legacy_av_config", 1);
+        }
+        if n_atk == 0 && !plan.has_faults() && !kf_cfg && (!connected || ga == 0 || gb == 0 || !bridged_ok) {
             sh.violate("HARNESS.vacuous", format!("fault-free attacker-free control run: connected={connected}, genuine frames delivered at A={ga}, at B={gb}: the delivery oracle would be vacuous"));
         }
         if connected && delivered == 0 {
@@ -1468,17 +1472,16 @@ pub fn generate(prop: &str, seed: u64, idx: u64, _tier: Tier) -> Plan {
     }
     // ---- swarm
     let mode = r.below(2) as i64;
-    let mut media = r.below(3) as i64;
+    let media = r.below(3) as i64;
     kn(&mut p, "mode", mode);
     kn(&mut p, "bundle", r.below(3) as i64);
     kn(&mut p, "mux", r.below(2) as i64);
     kn(&mut p, "offerer", r.below(2) as i64);
     if mode == 1 {
         let compat = r.chance(30) as i64;
-        // open known finding KF-sdes-legacy-nonbundle (C10): SDES + LegacySip + audio+video carries no decodable media
-        if compat == 1 && media == 2 {
-            media = r.below(2) as i64;
-        }
+        // SDES + LegacySip + audio+video is the open known finding KF-sdes-legacy-nonbundle of C10 (no decodable media);
+        // C14's demands (nothing in clear on the wire, no cleartext delivered) hold there all the same, so the
+        // configuration is run - only the "control runs deliver media" self-check is skipped for it
         kn(&mut p, "compat", compat);
         kn(&mut p, "latch", *r.pick(&[0i64, 0, 1, 2]));
     } else {
